@@ -1,5 +1,6 @@
 import Marwood.Lemmas.TransformSoundPlain
 import Marwood.Lemmas.TransformFuel
+import Marwood.Lemmas.TransformSelect
 /-!
 # C17 — syntax-rules is sound where supported and always terminates
 
@@ -16,9 +17,12 @@ transformer and use. What is proved:
   transformer; literals, `_`, data, nested lists and a custom ellipsis name are covered): every
   expansion is R7RS's — some rule `i` matches per R7RS, no earlier rule matches per R7RS (so the
   matcher is complete there), and the expansion is the instantiation of rule `i`'s template.
-* classes 2–4 (trailing ellipsis; ellipsis followed by a fixed tail; sub-patterns under an ellipsis):
-  NOT proved here; carried by the correspondence (plugin note). For these classes the guard
-  `Spec.Match.zeroRepTail` is the explicit decidable exclusion (`GapFree`).
+* `rule_selection_partial` / `rule_selection_gapfree` — classes 2–5 (trailing ellipsis; ellipsis
+  followed by a fixed tail, i.e. the `len() + 2` hand-off; sub-patterns under an ellipsis; literals,
+  `_`, custom ellipsis): the rule that fires is R7RS's first matching rule, with the explicit
+  decidable guard `GapFree` (`Spec.Match.zeroRepTail`) for the completeness half.
+* NOT proved: for templates that contain an ellipsis, that the expansion equals the instantiation
+  (`expand` with the per-variable cursors against `Spec.Match.inst`); carried by the correspondence.
 
 ## T17.2 termination
 * `patternMatch_terminates` — the matcher terminates on **every** input (any pattern, any ellipsis,
@@ -62,6 +66,51 @@ theorem soundness_noEllipsis_partial (f0 : Nat) (d : Datum) (t : Transform) (fue
   · have hcl := hclass s.es (by simpa [Setup.ell] using hte)
     exact transformRules_plain s fuel f0 t u hte htl t.rules e
       (fun r hr => ⟨hrules r hr, (hcl r hr).1, (hcl r hr).2⟩) huse
+
+/-! ## T17.1, classes 2–5: which rule fires
+
+For every pattern shape `try_new` lets through (`wfPattern`: proper, vector-free lists that do not
+start with the ellipsis and contain it at most once — trailing ellipsis, ellipsis followed by a fixed
+tail, sub-patterns under an ellipsis at any nesting, with literals, `_`, data and a custom ellipsis)
+the verdict of the matcher's state machine, including the
+`pattern_iter.len() == expr_iter.len() + 2` hand-off, is R7RS's: the rule `transform` expands with
+matches per R7RS, and every earlier rule does not match per R7RS or is in the excluded class
+`zeroRepTail` (the known finding). This is the first two conjuncts of T17.1; the third
+(`e = instantiate`) is proved for class 1 only and otherwise carried by the correspondence. -/
+
+/-- every pattern of the transformer has the shape `try_new` lets through (decidable) -/
+def PatternsWF (t : Transform) : Prop :=
+  ∀ es, t.ellipsis = .sym es → ∀ r ∈ t.rules, wfPattern es r.1.expr = true
+
+theorem rule_selection_partial (f0 : Nat) (d : Datum) (t : Transform) (fuel : Nat) (u e : Datum)
+    (hdef : Transform.tryNew f0 d = .ok t) (hwf : PatternsWF t)
+    (huse : t.transform fuel u = .ok e) :
+    ∃ s : Setup, t.ellipsis = s.ell ∧ t.literals = s.lits ∧ Selects s.ctx (specRules t) u := by
+  obtain ⟨s, hte, htl, _⟩ := Transform.tryNew_ok hdef
+  refine ⟨s, hte, htl, ?_⟩
+  unfold Transform.transform at huse
+  split at huse
+  · cases huse
+  · exact transformRules_selects s fuel t u hte htl t.rules e
+      (hwf s.es (by simpa [Setup.ell] using hte)) huse
+
+/-- with the guard, the selected rule is exactly R7RS's first matching rule -/
+theorem rule_selection_gapfree (f0 : Nat) (d : Datum) (t : Transform) (fuel : Nat) (u e : Datum)
+    (hdef : Transform.tryNew f0 d = .ok t) (hwf : PatternsWF t)
+    (huse : t.transform fuel u = .ok e) :
+    ∃ s : Setup, t.ellipsis = s.ell ∧ t.literals = s.lits ∧
+      (GapFree s.ctx (specRules t) u = true →
+        ∃ i r, (specRules t)[i]? = some r ∧ (matchRule s.ctx r u).isSome = true ∧
+          ∀ j : Nat, j < i → ∀ r', (specRules t)[j]? = some r' → matchRule s.ctx r' u = none) := by
+  obtain ⟨s, hte, htl, i, r, hi, hm, hprev⟩ := rule_selection_partial f0 d t fuel u e hdef hwf huse
+  refine ⟨s, hte, htl, fun hg => ⟨i, r, hi, hm, fun j hj r' hr' => ?_⟩⟩
+  rcases hprev j hj r' hr' with h | h
+  · exact h
+  · exfalso
+    have hmem : r' ∈ specRules t := List.mem_of_getElem? hr'
+    simp only [GapFree, List.all_eq_true] at hg
+    have := hg r' hmem
+    simp [h] at this
 
 /-! ## The witness of the known finding -/
 
